@@ -1,4 +1,5 @@
 import GN.Props.C06
+import GN.EventLoop.Progress
 open GN.Props.C06
 #print axioms count_is_exact
 #print axioms zero_iff_no_live_job
@@ -7,3 +8,8 @@ open GN.Props.C06
 #print axioms clear_noop_changes_nothing
 #print axioms fresh_after_terminate
 #print axioms refused_immediate_not_counted
+#print axioms GN.EventLoop.Progress.quiescent_nothing_fires
+#print axioms GN.EventLoop.Progress.quiescent_disables_live_steps
+#print axioms GN.EventLoop.Progress.live_work_is_enabled
+#print axioms GN.EventLoop.Progress.run_exit_never_blocked
+#print axioms GN.EventLoop.Progress.run_returns_at_quiescence
